@@ -27,7 +27,8 @@ RULE = (
     "such a file's content; switch the model file between two "
     "contents A/B (B differs in latencies), also while a process that already loaded it is alive (in-process lookup after "
     "the edit); cut a cache file at an offset class {0 bytes, header only (1-16), "
-    "mid-stream, last byte missing} or overwrite it with garbage; N in {2,4,8} processes cold-starting at once; one "
+    "mid-stream, last byte missing} or overwrite it with garbage; replace it by a cache of another format version (older or newer) holding "
+    "different data; N in {2,4,8} processes cold-starting at once; one "
     "cold start in which a simulated competitor creates ~/.osaca/cache between the existence test and the mkdir and "
     "puts its cache file in place just before the rename (harness-owned interleaving: os.mkdir/os.replace wrapped "
     "in the child). "
@@ -427,6 +428,32 @@ class Interp:
             sb.variant[arch] = after
             f["edit_after_cache"] = True
             f["edited_during_load"] = f.get("edited_during_load", 0) + 1
+        elif op == "foreign_version":
+            # the cache entry for the current content is replaced by one written in another cache format version
+            # (older or newer) whose data differ: it has to be ignored, whatever its version number
+            import pickle
+            arch = step["arch"]
+            h = sb.current_hash(arch)
+            files = [x for x in (sb.companion(arch) if step["where"] == "companion" else sb.homefiles(arch)) if h in x]
+            if not files or (sb.readonly and step["where"] == "companion"):
+                return
+            with open(files[0], "rb") as fh:
+                data = pickle.load(fh)
+            if not isinstance(data, dict) or "internal_version" not in data:
+                return
+            data["internal_version"] = data["internal_version"] + step["delta"]
+            for form in data.get("instruction_forms", []):
+                try:
+                    if form.latency:
+                        form.latency = form.latency * 2
+                except AttributeError:
+                    pass
+            for v_ in (data.get("load_latency") or {}):
+                data["load_latency"][v_] = data["load_latency"][v_] * 2
+            with open(files[0], "wb") as fh:
+                pickle.dump(data, fh)
+            f["damaged"][arch] = step["where"] + "-version%+d" % step["delta"]
+            f.setdefault("runs_after_damage", {})[arch] = 0
         elif op == "race_fs":
             arch = step["arch"]
             if step.get("home"):
@@ -604,6 +631,10 @@ def make_machine(stats, failures_out):
         def edit_during_load(self, arch, k):
             self.step({"op": "edit_during_load", "arch": arch, "kernel": kernels_for(arch)[k]})
 
+        @rule(arch=st.sampled_from(ARCHS), where=st.sampled_from(["companion", "home"]), delta=st.sampled_from([1, -1, 7]))
+        def foreign_version(self, arch, where, delta):
+            self.step({"op": "foreign_version", "arch": arch, "where": where, "delta": delta})
+
         @rule(arch=st.sampled_from(ARCHS), k=st.integers(0, 2), home=st.booleans())
         def race_fs(self, arch, k, home):
             self.step({"op": "race_fs", "arch": arch, "kernel": kernels_for(arch)[k], "home": home})
@@ -679,6 +710,31 @@ def fault_enumeration(archs, stats, failures):
                 failures[v.bucket] = failure_record(ID, {"history": list(it.history)}, v)
         finally:
             it.close()
+    # cache entry of another format version (older / newer) with different data under the current content's name
+    for arch in archs:
+        for where in ("companion", "home"):
+            for delta in (1, -1):
+                it = Interp()
+                k0 = kernels_for(arch)[0]
+                hist = [{"op": "run", "arch": arch, "kernel": k0, "fixed": False}]
+                if where == "home":
+                    hist.append({"op": "move_to_home", "arch": arch})
+                hist += [{"op": "foreign_version", "arch": arch, "where": where, "delta": delta},
+                         {"op": "run", "arch": arch, "kernel": k0, "fixed": False},
+                         {"op": "run", "arch": arch, "kernel": kernels_for(arch)[1], "fixed": True}]
+                try:
+                    for s_ in hist:
+                        it.do(s_)
+                    for upto in it.facts["checked"]:
+                        stats.evaluations += 1
+                        stats.nontrivial.add(core.case_hash(it.history[:upto]))
+                    stats.classes["fault:cache-of-another-format-version:%s:%+d" % (where, delta)] += 1
+                except Violation as v:
+                    stats.evaluations += 1
+                    if v.bucket not in failures:
+                        failures[v.bucket] = failure_record(ID, {"history": list(it.history)}, v)
+                finally:
+                    it.close()
     # a cache entry for the previous content of the file sits in the home cache when the edited file is analysed
     for arch in archs:
         for via in ("moved", "readonly"):
